@@ -88,7 +88,8 @@ MANIFEST_ENTRY = {
                  'arriving report threads: recorded templates + SMT over interleavings with read-value consistency, gated replay',
     'text': 'Two (plus one replayed) reports with unconstrained MdibVersion/StateVersion/ids cover every drop, duplication and '
             're-ordering of any two reports of any provider history; "Confirmed over all paths" = no regression for ALL version values.',
-    'note': 'Bounded to 2-3 deliveries per obligation, 4 state handles; XML parsing and the id-change notification thread are stubbed; '
+    'note': 'Bounded to 2-3 deliveries per obligation, 4 state handles + 1 waveform; update notifications (*_by_handle) and the waveform '
+            'buffer are part of the compared state; XML parsing and the id-change notification thread are stubbed; '
             'functional-provider assumption on report content.',
 }
 
